@@ -519,6 +519,7 @@ def conveyor_cfgs(tier):
     C["cconv-acc0-cap3-hold"] = dict(kind="cconv", acc=0, cap=3, n_items=3, consumer="hold")
     C["cconv-acc1-cap2-slow"] = dict(kind="cconv", acc=1, cap=2, n_items=3, consumer="slow")
     C["cconv-acc1-speed2"] = dict(kind="cconv", acc=1, cap=2, n_items=3, consumer="late", speed=2, item_len=1, length=2)
+    C["cconv-acc1-speed2-cap4"] = dict(kind="cconv", acc=1, cap=4, n_items=3, consumer="late", speed=2, item_len=1, length=4, svc_hi=10)
     C["cconv-acc0-halfitems"] = dict(kind="cconv", acc=0, cap=4, n_items=3, consumer="late", speed=1, item_len=0.5, length=2)
     C["cconv-acc1-nonmultiple"] = dict(kind="cconv", acc=1, cap=2, n_items=2, consumer="eager", speed=1, item_len=1, length=2.5)
     C["sconv-acc1-slot05"] = dict(kind="sconv", acc=1, cap=2, n_items=3, consumer="late", slot=0.5)
